@@ -37,6 +37,12 @@ def scope_of(prog, f):
         return "compare"
     if n in ARITH and prog.derives(cls, "SymEngine::Number"):
         return "arith"
+    if prog.derives(cls, "SymEngine::Number") and n not in (
+            "__eq__", "compare"):
+        # every other member of a number class that receives a generic
+        # Number/Basic (validating factories such as Complex::from_two_nums,
+        # which the deserialiser relies on, pow/rpow helpers, ...)
+        return "number"
     if prog.derives(cls, "SymEngine::MatrixBase") and any(
             strip_type(p["t"]) == "SymEngine::MatrixBase"
             for p in f.get("params", ())):
@@ -51,6 +57,76 @@ def base_param(e):
     if e is not None and e.get("k") == "ref" and e.get("d") == "param":
         return e
     return None
+
+
+def cast_guards(prog, R, rid, f, sc, counts):
+    """unchecked down-casts of generic parameters of f must be dominated by
+    a positive dynamic type test of the same parameter"""
+    ptypes = {p["n"]: strip_type(p["t"]) for p in f.get("params", ())
+              if strip_type(p["t"]) in GENERIC}
+    if not ptypes:
+        return
+
+    def cb(n, guards, line, f=f, sc=sc, ptypes=ptypes):
+        T = None
+        src = None
+        if n.get("k") == "call" and n.get("n") == "down_cast" \
+                and n.get("ta"):
+            T = strip_type(n["ta"][0])
+            src = n["a"][0]
+        elif n.get("k") == "cast" and n.get("ck") in ("static", "c",
+                                                      "reinterpret") \
+                and strip_type(n.get("t", "")).startswith("SymEngine::"):
+            T = strip_type(n["t"])
+            src = n["a"][0]
+        if T is None:
+            return
+        p = base_param(src)
+        if p is None or p["n"] not in ptypes:
+            return
+        st = ptypes[p["n"]]
+        if T == st or prog.derives(st, T):
+            return                      # up-cast / no-op
+        counts[sc] = counts.get(sc, 0) + 1
+        key = "%s@%s" % (short(f["qn"]), n.get("l"))
+        R.instance(rid, key, nontrivial=(sc != "compare"),
+                   sample={"scope": sc, "cast": show(n)[:80]})
+        if sc == "compare":
+            return
+        facts = sym.flatten_guards(guards)
+        ok = False
+        tests = []
+        for g in facts:
+            if g[0] == "case":
+                continue
+            c, pol = g
+            if c.get("k") != "call" or not pol:
+                continue
+            on_p = any(x.get("k") == "ref" and x.get("n") == p["n"]
+                       for x in walk(c))
+            nm = c.get("n")
+            if nm in ("is_a", "is_a_sub") and c.get("ta") and on_p:
+                G = strip_type(c["ta"][0])
+                tests.append(short(G))
+                if G == T or prog.derives(G, T):
+                    ok = True
+            elif nm == "is_same_type" and on_p:
+                tests.append("is_same_type")
+                ok = True
+            elif nm in FAMILY_TESTS and on_p:
+                G = FAMILY_TESTS[nm]
+                tests.append(nm)
+                if G == T or prog.derives(G, T):
+                    ok = True
+        if not ok:
+            R.violation(
+                rid, short(f["qn"]), prog.loc(f, n.get("l")),
+                "%s casts parameter `%s` (static type %s) to %s without "
+                "a dominating test that it is one (tests on this path: "
+                "%s); down_cast is an unchecked static_cast in release "
+                "builds" % (short(f["qn"]), p["n"], short(st), short(T),
+                            tests or "none"))
+    sym.visit_guarded(f["body"], cb)
 
 
 def run(loader, R, tier):
@@ -76,7 +152,7 @@ def run(loader, R, tier):
     R.assumptions += ["compare() overrides rely on the precondition checked "
                       "by C02 R2.4 and are counted but exempt here"]
 
-    counts = {"eq": 0, "arith": 0, "matrix": 0, "compare": 0}
+    counts = {"eq": 0, "arith": 0, "matrix": 0, "compare": 0, "number": 0}
     for u, f in prog.functions.items():
         if f.get("dependent") or f.get("tk") == "pattern" \
                 or not f.get("body"):
@@ -84,71 +160,7 @@ def run(loader, R, tier):
         sc = scope_of(prog, f)
         if sc is None:
             continue
-        ptypes = {p["n"]: strip_type(p["t"]) for p in f.get("params", ())
-                  if strip_type(p["t"]) in GENERIC}
-        if not ptypes:
-            continue
-
-        def cb(n, guards, line, f=f, sc=sc, ptypes=ptypes):
-            T = None
-            src = None
-            if n.get("k") == "call" and n.get("n") == "down_cast" \
-                    and n.get("ta"):
-                T = strip_type(n["ta"][0])
-                src = n["a"][0]
-            elif n.get("k") == "cast" and n.get("ck") in ("static", "c",
-                                                          "reinterpret") \
-                    and strip_type(n.get("t", "")).startswith("SymEngine::"):
-                T = strip_type(n["t"])
-                src = n["a"][0]
-            if T is None:
-                return
-            p = base_param(src)
-            if p is None or p["n"] not in ptypes:
-                return
-            st = ptypes[p["n"]]
-            if T == st or prog.derives(st, T):
-                return                      # up-cast / no-op
-            counts[sc] += 1
-            key = "%s@%s" % (short(f["qn"]), n.get("l"))
-            R.instance("R40.1", key, nontrivial=(sc != "compare"),
-                       sample={"scope": sc, "cast": show(n)[:80]})
-            if sc == "compare":
-                return
-            facts = sym.flatten_guards(guards)
-            ok = False
-            tests = []
-            for g in facts:
-                if g[0] == "case":
-                    continue
-                c, pol = g
-                if c.get("k") != "call" or not pol:
-                    continue
-                on_p = any(x.get("k") == "ref" and x.get("n") == p["n"]
-                           for x in walk(c))
-                nm = c.get("n")
-                if nm in ("is_a", "is_a_sub") and c.get("ta") and on_p:
-                    G = strip_type(c["ta"][0])
-                    tests.append(short(G))
-                    if G == T or prog.derives(G, T):
-                        ok = True
-                elif nm == "is_same_type" and on_p:
-                    tests.append("is_same_type")
-                    ok = True
-                elif nm in FAMILY_TESTS and on_p:
-                    G = FAMILY_TESTS[nm]
-                    tests.append(nm)
-                    if G == T or prog.derives(G, T):
-                        ok = True
-            if not ok:
-                R.violation(
-                    "R40.1", short(f["qn"]), prog.loc(f, n.get("l")),
-                    "%s casts parameter `%s` (static type %s) to %s without "
-                    "a dominating test that it is one (tests on this path: "
-                    "%s); down_cast is an unchecked static_cast in release "
-                    "builds" % (short(f["qn"]), p["n"], short(st), short(T),
-                                tests or "none"))
-        sym.visit_guarded(f["body"], cb)
+        cast_guards(prog, R, "R40.1", f, sc, counts)
     R.info["casts_in_scope"] = counts
     R.floor("casts in __eq__", counts["eq"], 55)
     R.floor("casts in Number arithmetic", counts["arith"], 60)
